@@ -145,3 +145,39 @@ Proof.
   exact (client_gone_releases nc ns st c F (Full_removeclient nc ns st c F)).
 Qed.
 Print Assumptions C17_client_gone_releases_its_requests.
+
+(* the same for a server that goes away (a dynamically discovered server being removed, freeserver): in every reachable
+   state, afterwards none of its 256 identifiers is occupied -- every request that was outstanding there has been let go
+   by the table (and, by C17_exactly_once, freed when the table was its only holder) *)
+Lemma R6_fold_freerqoutdata s l : forall st, R6 st (fold_left (fun st i => freerqoutdata st s (N.of_nat i)) l st).
+Proof.
+  induction l as [|i l IH]; intro st; [apply R6_refl|].
+  cbn [fold_left]. eapply R6_trans; [apply R6_freerqoutdata | apply IH].
+Qed.
+
+Lemma freeserver_fold_empties nc ns s l : forall st i, T nc ns st zero -> (s < ns)%nat -> In i l -> (i < 256)%nat ->
+  slot_of (fold_left (fun st i => freerqoutdata st s (N.of_nat i)) l st) s (N.of_nat i) = None.
+Proof.
+  induction l as [|a l IH]; intros st i Tt Ls Hi Li; [destruct Hi|].
+  cbn [fold_left]. destruct Hi as [-> | Hi].
+  - assert (Z0 : slot_of (freerqoutdata st s (N.of_nat i)) s (N.of_nat i) = None).
+    { destruct Tt as (_ & (_ & Hns & _ & Hsv) & _). destruct (Hsv s Ls) as (H256 & _).
+      apply freerqoutdata_releases; [rewrite Hns; exact Ls | rewrite H256, Nat2N.id; exact Li]. }
+    destruct (R6_fold_freerqoutdata s l (freerqoutdata st s (N.of_nat i))) as (SS & _).
+    destruct (slot_of (fold_left _ l _) s (N.of_nat i)) as [h|] eqn:E; [|reflexivity].
+    rewrite (SS _ _ _ E) in Z0. discriminate.
+  - apply IH; [apply T_freerqoutdata; exact Tt | exact Ls | exact Hi | exact Li].
+Qed.
+
+Theorem C17_server_gone_empties_its_table : forall md5, (forall x, length (md5 x) = 16%nat) -> (forall x, wf_bytes (md5 x) = true) ->
+  forall rx cfg nclients nservers ops s i, cfg_ok cfg nservers -> Forall (op_ok nclients nservers) ops ->
+  let st := fold_left (hstep md5 rx cfg) ops (init_state nclients nservers) in
+  (s < nservers)%nat -> i < 256 -> slot_of (freeserver st s) s i = None.
+Proof.
+  intros md5 L W rx cfg nc ns ops s i Hc Ho st Ls Li.
+  assert (B : Bal nc ns st) by (apply (Bal_history md5 L W rx cfg nc ns Hc); [exact Ho | apply Bal_init]).
+  clearbody st. destruct B as (_ & Tt & _).
+  rewrite <- (N2Nat.id i). unfold freeserver.
+  apply (freeserver_fold_empties nc ns s (seq 0 256) st (N.to_nat i) Tt Ls); [apply in_seq; lia | lia].
+Qed.
+Print Assumptions C17_server_gone_empties_its_table.
